@@ -220,7 +220,7 @@ Inductive rfl_out (rds : list rd_out) (fut : bytes) (rem : list frame)
     rem = f :: rem' -> rds = p ++ rds' -> grds rds' -> (In RdEof rds' -> In RdEof rds) ->
     codec_at c' (rdata rds' ++ fut) rem' ->
     rfl_out rds fut rem (ROk (Some (f_hdr f, blen (f_payload f), wpayload f))) c' rds'
-| RO_block c' : ~ In RdEof rds -> codec_at c' fut rem ->
+| RO_block c' : ~ In RdEof rds -> codec_at c' fut rem -> (rem = [] \/ fut <> []) ->
     rfl_out rds fut rem (RErr (EIo WouldBlock)) c' []
 | RO_eof c' : In RdEof rds -> rem = [] -> codec_at c' [] [] ->
     rfl_out rds fut rem (ROk None) c' [].
@@ -236,7 +236,7 @@ Proof.
     destruct (try_take umax c) as [h len p c1|n c1|e c1|s]; try contradiction.
   - destruct HT as [f [rem' [-> [-> [-> [-> Hat1]]]]]]. inv E.
     apply (RO_frame _ _ _ f rem' c' [] []); auto.
-  - destruct HT as [Hat1 Hne]. inv E. apply RO_block; [intros []|exact Hat1].
+  - destruct HT as [Hat1 Hne]. inv E. apply RO_block; [intros []|exact Hat1|exact Hne].
   - destruct HT as [f [rem' [-> [-> [-> [-> Hat1]]]]]]. inv E.
     apply (RO_frame _ _ _ f rem' c' (o :: rest) []); auto.
   - destruct HT as [Hat1 Hne].
@@ -244,11 +244,11 @@ Proof.
     + cbn [rdata] in Hat1. rewrite <- app_assoc in Hat1. apply codec_at_feed in Hat1.
       assert (Heof' : In RdEof rest -> fut = []) by (intros X; apply Heof; right; exact X).
       specialize (IH _ _ _ _ _ _ Hg Hat1 Hok Heof' E).
-      destruct IH as [f rem' c2 rds2 p Hrem Hp Hg2 He2 Hat2|c2 Hn Hat2|c2 Hi Hrem Hat2].
+      destruct IH as [f rem' c2 rds2 p Hrem Hp Hg2 He2 Hat2|c2 Hn Hat2 Hne2|c2 Hi Hrem Hat2].
       * apply (RO_frame _ _ _ f rem' c2 rds2 (RdData (b :: bs) :: p)); auto.
         -- rewrite Hp. reflexivity.
         -- intros X. right. exact (He2 X).
-      * apply RO_block; [|exact Hat2]. intros [X|X]; [discriminate X|exact (Hn X)].
+      * apply RO_block; [|exact Hat2|exact Hne2]. intros [X|X]; [discriminate X|exact (Hn X)].
       * apply RO_eof; auto. right. exact Hi.
     + destruct rest; [|contradiction]. inv E.
       assert (Hf : fut = []) by (apply Heof; left; reflexivity). subst fut.
@@ -308,7 +308,7 @@ Inductive rf_out (reader : role) (rds : list rd_out) (fut : bytes) (rem : list f
     rem = f :: rem' -> rds = p ++ rds' -> grds rds' -> (In RdEof rds' -> In RdEof rds) ->
     codec_at c' (rdata rds' ++ fut) rem' ->
     rf_out reader rds fut rem (ROk (Some (plain_of f))) c' rds'
-| RF_block c' : ~ In RdEof rds -> codec_at c' fut rem ->
+| RF_block c' : ~ In RdEof rds -> codec_at c' fut rem -> (rem = [] \/ fut <> []) ->
     rf_out reader rds fut rem (RErr (EIo WouldBlock)) c' []
 | RF_eof c' : In RdEof rds -> rem = [] -> codec_at c' [] [] ->
     rf_out reader rds fut rem (ROk None) c' [].
@@ -331,7 +331,7 @@ Proof.
   pose proof (rfl_same _ _ _ _ _ E) as [A [B C]].
   apply (rfl_at _ _ fut rem) in E; auto.
   splits; auto.
-  destruct E as [f rem' c2 rds2 p Hrem Hp Hg2 He2 Hat2|c2 Hn Hat2|c2 Hi Hrem Hat2].
+  destruct E as [f rem' c2 rds2 p Hrem Hp Hg2 He2 Hat2|c2 Hn Hat2 Hne2|c2 Hi Hrem Hat2].
   - subst rem. inversion Hm as [|? ? Hmf _]; subst.
     rewrite post_frame_at by (rewrite sender_if; exact Hmf).
     eapply RF_frame; eauto.
